@@ -5,10 +5,12 @@ PROP = 'C19'
 CONFIGS = {
     'quick': [('nestings', ('H_T', 'M_E0', 'T_T', 'O_T', 4, 4), 6000),
               ('loops-in-par', ('H_T', 'M_E0', 'T_TL', 'O_TL', 5, 5), 4000),
-              ('nestings-deep', ('H_T', 'M_E0', 'T_T', 'O_TD', 8, 4), 6000, (1500, 40))],
+              ('nestings-deep', ('H_T', 'M_E0', 'T_T', 'O_TD', 8, 4), 6000, (1500, 40)),
+              ('free-nesting-builder', ('H_T', 'M_E0', 'T_TL', 'O_TLA', 4, 4), 3000)],
     'thorough': [('nestings', ('H_T', 'M_E0', 'T_T', 'O_T', 6, 5), 150000),
                  ('loops-in-par', ('H_T', 'M_E0', 'T_TL', 'O_TL', 7, 6), 100000),
-                 ('nestings-deep', ('H_T', 'M_E0', 'T_T', 'O_TD', 10, 5), 100000, (30000, 60))],
+                 ('nestings-deep', ('H_T', 'M_E0', 'T_T', 'O_TD', 10, 5), 100000, (30000, 60)),
+                 ('free-nesting-builder', ('H_T', 'M_E0', 'T_TL', 'O_TLA', 6, 5), 60000)],
 }
 OWNED = {'error_type', 'loop_in_par_rejected', 'accepted', 'flat', 'schedule', 'sub_annotations', 'header_carried', 'imports_carried'}
 
